@@ -282,6 +282,7 @@ def persistModel : List (String × String × String × String) :=
    ("Engine::reset", "graphics", "reset", "Engine::reset"),
    ("Engine::reset", "graphics.is_pedantic", "reset", "Engine::reset"),
    ("Engine::reset", "loop_budget", "reset", "Engine::reset"),
+   ("Engine::reset", "value_stack", "reset", "Engine::reset"),
    ("Engine::reset(ControlValue)", "graphics.backward_compatibility", "assign", "Engine::reset"),
    ("Engine::reset(Glyph)", "graphics.backward_compatibility", "assign", "Engine::reset"),
    ("Engine::reset(Glyph)", "graphics.retained", "reset-if-instruct-control-bit-1", "Engine::reset"),
